@@ -8,7 +8,9 @@ pub mod c04;
 pub mod c05;
 pub mod c07;
 pub mod c12;
+pub mod c13;
 pub mod c14;
+pub mod c15;
 pub mod c16;
 pub mod c17;
 pub mod c18;
@@ -34,7 +36,9 @@ pub fn all() -> Vec<Scenario> {
         Scenario { name: "c05", plan: c05::plan, run: c05::run },
         Scenario { name: "c07", plan: c07::plan, run: c07::run },
         Scenario { name: "c12", plan: c12::plan, run: c12::run },
+        Scenario { name: "c13", plan: c13::plan, run: c13::run },
         Scenario { name: "c14", plan: c14::plan, run: c14::run },
+        Scenario { name: "c15", plan: c15::plan, run: c15::run },
         Scenario { name: "c16", plan: c16::plan, run: c16::run },
         Scenario { name: "c17", plan: c17::plan, run: c17::run },
         Scenario { name: "c18", plan: c18::plan, run: c18::run },
